@@ -727,6 +727,10 @@ func main() {
 			rp := rp
 			jobs = append(jobs, job{rp: &rp})
 		}
+		for _, rp := range rangeGrow() {
+			rp := rp
+			jobs = append(jobs, job{rp: &rp})
+		}
 		// exhaustive small scope: every limit sequence over {1,2,3} of length L on a 7-event/3-chunk store, cached and
 		// uncached, then drained
 		L := 3
@@ -778,7 +782,7 @@ type job struct {
 	gen *Rng
 }
 
-const rule = "empty-first: reads whose first page is empty (Pos tail, or head with a WHERE that matches nothing stored yet), then appends, then resumed in each kind, cached and uncached, 1-2 partitions; stores of 1-4 partitions with 2-40 events in chunks of 1-6 records (pairwise different timestamps), with/without WHERE and RANGE; page scripts with limits from {1,2,3,7,chunk+-1,total+-1,10001} and resume kinds same/evict/zero/posonly (+retry in the retry stream), cached (WaitTimeout) and uncached, appends before ~30% of the pages, then drained to the end; a case is non-trivial iff it has >= 3 pages and some page ended within one record of a chunk edge, or it used a resume kind other than `same`; distinct by the hash of store+script+observations"
+const rule = "range-grow: RANGE on a server-kept cursor whose lower bound lies above everything a partition holds at the first page, then in-range appends into the same chunk / new chunks, resumed in each kind; empty-first: reads whose first page is empty (Pos tail, or head with a WHERE that matches nothing stored yet), then appends, then resumed in each kind, cached and uncached, 1-2 partitions; stores of 1-4 partitions with 2-40 events in chunks of 1-6 records (pairwise different timestamps), with/without WHERE and RANGE; page scripts with limits from {1,2,3,7,chunk+-1,total+-1,10001} and resume kinds same/evict/zero/posonly (+retry in the retry stream), cached (WaitTimeout) and uncached, appends before ~30% of the pages, then drained to the end; a case is non-trivial iff it has >= 3 pages and some page ended within one record of a chunk edge, or it used a resume kind other than `same`; distinct by the hash of store+script+observations"
 
 func mix64(z uint64) uint64 {
 	z = (z ^ (z >> 33)) * 0xff51afd7ed558ccd
